@@ -432,6 +432,19 @@ fn eval(j: &mut Jail, name: &Name, op: &str, verbose: bool) -> Vec<Fail> {
                     detail: format!("{} with n = {:?} (layout {}) returned {} and changed the world outside the root: {}", op, shown, LAYOUTS[j.layout], status, d.join(", ")),
                 });
             }
+            // content of a file outside the root copied into the root (append/replace reading their
+            // second file from an un-confined path): every outside file carries a canary text
+            for (k, v) in &after {
+                if let Node::File(bytes) = v {
+                    if is_inside(k) && bytes.windows(6).any(|w| w == b"canary") && j.pristine.get(k) != Some(v) {
+                        fails.push(Fail {
+                            kind: "read-outside",
+                            sig: format!("leak|{}|{}", op, name.class()),
+                            detail: format!("{} with n = {:?} (layout {}) returned {} and copied data from outside the root into {}: {:?}", op, shown, LAYOUTS[j.layout], status, k, String::from_utf8_lossy(bytes)),
+                        });
+                    }
+                }
+            }
             if let Some(what) = &read_ok {
                 let eff = if is_req { lex1 && lex2 } else { lex1 };
                 if !eff {
